@@ -164,6 +164,16 @@ def clear (cs : ChangeSet) : Out (ChangeSet × List Amount) :=
   | .panic w => .panic w
   | .ub w => .ub w
 
+/-- `ChangeSet::clear` during which the `n`-th (1-based; 0 counts as 1) destructor run panics and the panic is
+    caught (C19). The mask is taken out of the set before anything is destroyed, the dense vector resets its two
+    index tables first and `Vec::clear` goes on destroying the remaining elements while it unwinds: state and
+    destroyed payloads are those of `clear`; the call panics iff at least `n` amounts are destroyed. -/
+def clearFault (cs : ChangeSet) (n : Nat) : Out (ChangeSet × List Amount × Bool) :=
+  match cs.clear with
+  | .ok (cs', d) => .ok (cs', d, decide (max n 1 ≤ d.length))
+  | .panic w => .panic w
+  | .ub w => .ub w
+
 /-- Dropping the change set: the payloads destroyed. -/
 def dropAll (cs : ChangeSet) : List Amount := cs.inner.dropAll
 
